@@ -398,6 +398,9 @@ def run(chk):
     if not ok:
         chk.violation(r_wo, "NameOrder::sort", "NameOrder::sort: the names must be sorted by ascending insertion index (m_index_map.at(a) < m_index_map.at(b)) and returned; found comparator %s, returns %s" % (cmp_txt, rets), ns["file"], ns["l"])
 
+    from verif import fallthrough
+    fallthrough.run(chk, "C04", floor=2)
+
     chk.assumptions += [
         "the C03 copy-on-write rules are evaluated on every library function (a superset of what applyAction reaches)",
         "documented mode-dependent keywords: WELPI, UDQ '?' substitution (tables in rules/C04.py)",
